@@ -27,6 +27,9 @@ func TestC06(t *testing.T) {
 		c, rs := genRSCase(rt, cfg)
 		maybeFailingConditions(rt, c, rs)
 		maybeBareCondition(rt, c, rs)
+		// a quarter of the cases run on an instance that served an earlier call, which mostly ended at its
+		// own (small) cycle limit, possibly after a Retract: every call reports itself faithfully
+		maybeUsedBefore(rt, c, rs, cfg.Rules.State)
 		prep, err := val.Prepare(c)
 		if err != nil {
 			rt.Fatalf("harness: %v", err)
